@@ -14,7 +14,7 @@ from ..run import hyp_run
 
 ID = 'C19'
 LEVEL = 'exploration'
-BUDGET_S = {'quick': 120, 'thorough': 1200}
+BUDGET_S = {'quick': 300, 'thorough': 1200}
 RULE = ('one workbook per case, translated with the safety check enabled and disabled; a case = (workbook, setting); '
         'non-trivial = at least two suspicious cells on two different rows whose row differs from their column index, and at least '
         'one innocent upper-case call present; distinct = distinct (workbook, setting)')
